@@ -3,6 +3,7 @@ use std::sync::Arc;
 use async_graphql_parser::types::{
     BaseType, FieldDefinition, InputValueDefinition, TypeDefinition, TypeKind,
 };
+use itertools::Itertools;
 
 use crate::{
     accessor_property, field_property,
@@ -108,10 +109,14 @@ fn vertex_type_iter(
         });
         Box::new(neighbors)
     } else {
+        // `vertex_types` is a hash map: iterate in name order so that query results
+        // don't depend on the hasher's per-instance random state.
         Box::new(
             schema
                 .vertex_types
-                .values()
+                .iter()
+                .sorted_by_key(|(name, _)| *name)
+                .map(|(_, v)| v)
                 .filter(move |v| v.name.node != root_query_type)
                 .map(|v| SchemaVertex::VertexType(VertexType::new(v))),
         )
